@@ -12,7 +12,7 @@ CFG = dict(
     mix=dict(create=3, assign=3, assign0=1, remove=3, destroynow=2, destroy=1, build=2, lock=2, unlock=1, update=1, query=1, parjob=1),
     corpus=[x for x in "C05,C13".split(",")],
     n_quick=500, n_thorough=6000, len=(8, 45),
-    gen=dict(lock_bias=0.35, max_threads=4, ndeps=1, malformed=0.15, shared=True),
+    gen=dict(lock_bias=0.35, max_threads=4, ndeps=1, malformed=0.15, shared=True, reassign=True),
     exhaustive=wc.stress_parallel_creates,
     impl_only=wc.stress_impl_only,
     what="locked sections with several commands per entity from several scripted dispatcher threads, nested locks, dump inside the locked section must equal the pre-lock snapshot",
